@@ -249,6 +249,12 @@ Definition lims := [opt "min_p_mw"; opt "max_p_mw"; opt "min_q_mvar"; opt "max_q
 Definition d_bus_s : desc := {| d_table := "bus"; d_idxtab := "bus"; d_nodes := []; d_pos := []; d_req := [];
   d_cols := [arg "vn_kv" VNaN; arg "type" (VS "b"); arg "zone" VNaN; arg "in_service" T;
              ("min_vm_pu", Opt "min_vm_pu" VNaN (N 0) false); ("max_vm_pu", Opt "max_vm_pu" VNaN (N 2) false)] |}.
+(* create_buses with the proposed (not applied: the REI code of grid_equivalents relies on NaN limits) repair
+   "pass default_val=0.0 / 2.0 like create_bus" *)
+Definition d_bus_b_repair : desc := {| d_table := "bus"; d_idxtab := "bus"; d_nodes := []; d_pos := []; d_req := [];
+  d_cols := [arg "vn_kv" VNaN; arg "type" (VS "b"); arg "zone" VNaN; arg "in_service" T;
+             ("min_vm_pu", Opt "min_vm_pu" VNaN (N 0) false); ("max_vm_pu", Opt "max_vm_pu" VNaN (N 2) false)] |}.
+(* create_buses as it is: no default_val *)
 Definition d_bus_b : desc := {| d_table := "bus"; d_idxtab := "bus"; d_nodes := []; d_pos := []; d_req := [];
   d_cols := [arg "vn_kv" VNaN; arg "type" (VS "b"); arg "zone" VNaN; arg "in_service" T;
              opt "min_vm_pu"; opt "max_vm_pu"] |}.
@@ -284,17 +290,22 @@ Definition d_gen_s : desc := {| d_table := "gen"; d_idxtab := "gen"; d_nodes := 
                            ("curve_style", Opt "curve_style" VNaN VNaN false);
                            ("reactive_capability_curve", Opt "reactive_capability_curve" F VNaN false);
                            ("max_vm_pu", Opt "max_vm_pu" VNaN (N 2) false); ("min_vm_pu", Opt "min_vm_pu" VNaN (N 0) false)] |}.
+Definition gen_b_cols (vm : list (string * colspec)) :=
+  gen_common ++ [("controllable", Opt "controllable" VNaN T true);
+                 arg "curve_style" VNaN;
+                 ("reactive_capability_curve", Opt "reactive_capability_curve" F VNaN true)] ++ vm.
+Definition d_gen_b_repair : desc := {| d_table := "gen"; d_idxtab := "gen"; d_nodes := [("bus", "bus")]; d_pos := []; d_req := [];
+  d_cols := gen_b_cols [("max_vm_pu", Opt "max_vm_pu" VNaN (N 2) false); ("min_vm_pu", Opt "min_vm_pu" VNaN (N 0) false)] |}.
 Definition d_gen_b : desc := {| d_table := "gen"; d_idxtab := "gen"; d_nodes := [("bus", "bus")]; d_pos := []; d_req := [];
-  d_cols := gen_common ++ [("controllable", Opt "controllable" VNaN T true);
-                           arg "curve_style" VNaN;
-                           ("reactive_capability_curve", Opt "reactive_capability_curve" F VNaN true);
-                           opt "max_vm_pu"; opt "min_vm_pu"] |}.
+  d_cols := gen_b_cols [opt "max_vm_pu"; opt "min_vm_pu"] |}.
 
-(* ward_create.py:58-70 / :105-118   (create_wards consults net.storage for the index) *)
+(* ward_create.py:58-70 / :105-118   (before "fix: create_wards checks and allocates the index in net.ward" it consulted net.storage) *)
 Definition ward_cols := [arg "bus" VNaN; arg "ps_mw" VNaN; arg "qs_mvar" VNaN; arg "pz_mw" VNaN; arg "qz_mvar" VNaN; arg "in_service" T].
 Definition d_ward_s : desc := {| d_table := "ward"; d_idxtab := "ward"; d_nodes := [("bus", "bus")]; d_pos := []; d_req := [];
   d_cols := ward_cols |}.
-Definition d_ward_b : desc := {| d_table := "ward"; d_idxtab := "storage"; d_nodes := [("bus", "bus")]; d_pos := []; d_req := [];
+Definition d_ward_b : desc := {| d_table := "ward"; d_idxtab := "ward"; d_nodes := [("bus", "bus")]; d_pos := []; d_req := [];
+  d_cols := ward_cols |}.
+Definition d_ward_b_old : desc := {| d_table := "ward"; d_idxtab := "storage"; d_nodes := [("bus", "bus")]; d_pos := []; d_req := [];
   d_cols := ward_cols |}.
 
 (* line_create.py:115-150 / :349-373 *)
@@ -305,13 +316,17 @@ Definition line_common :=
    ("g_us_per_km", Man (SStdGet "g_us_per_km" (N 0))); ("type", Man (SStdOpt "type")); opt "max_loading_percent"].
 Definition line_req := ["r_ohm_per_km"; "x_ohm_per_km"; "c_nf_per_km"; "max_i_ka"].
 Definition line_nodes := [("from_bus", "bus"); ("to_bus", "bus")].
+Definition line_zero := [("r0_ohm_per_km", Man (SStdOpt "r0_ohm_per_km")); ("x0_ohm_per_km", Man (SStdOpt "x0_ohm_per_km"));
+                         ("c0_nf_per_km", Man (SStdOpt "c0_nf_per_km"))].
 Definition d_line_s : desc := {| d_table := "line"; d_idxtab := "line"; d_nodes := line_nodes; d_pos := []; d_req := line_req;
-  d_cols := line_common ++ [("r0_ohm_per_km", Man (SStdOpt "r0_ohm_per_km")); ("x0_ohm_per_km", Man (SStdOpt "x0_ohm_per_km"));
-                            ("c0_nf_per_km", Man (SStdOpt "c0_nf_per_km"));
+  d_cols := line_common ++ line_zero ++ [
                             ("alpha", Man (SArgOr "alpha" (SStdIfCol "alpha")));
                             opt "temperature_degree_celsius"] |}.
 (* create_lines has no alpha / temperature parameter: they arrive through **kwargs as plain entries *)
+(* after "fix: create_lines copies the zero sequence parameters of the standard type" *)
 Definition d_line_b : desc := {| d_table := "line"; d_idxtab := "line"; d_nodes := line_nodes; d_pos := []; d_req := line_req;
+  d_cols := line_common ++ line_zero ++ [arg "alpha" VNaN; arg "temperature_degree_celsius" VNaN] |}.
+Definition d_line_b_old : desc := {| d_table := "line"; d_idxtab := "line"; d_nodes := line_nodes; d_pos := []; d_req := line_req;
   d_cols := line_common ++ [arg "alpha" VNaN; arg "temperature_degree_celsius" VNaN] |}.
 
 (* trafo_create.py:105-189 (create_transformer) / :252-270 + :623-695 (create_transformers -> ..._from_parameters) *)
@@ -333,14 +348,18 @@ Definition d_trafo_s : desc := {| d_table := "trafo"; d_idxtab := "trafo"; d_nod
      ("tap2_pos", Man (SArgOr "tap2_pos" (SStdOpt "tap2_neutral")));
      ("tap_dependency_table", Opt "tap_dependency_table" F F false);
      ("oltc", Opt "oltc" F F false)] |}.
-Definition d_trafo_b : desc := {| d_table := "trafo"; d_idxtab := "trafo"; d_nodes := trafo_nodes; d_pos := []; d_req := trafo_req;
-  d_cols := trafo_common ++
+(* d_pos: after "fix: create_transformers_from_parameters rejects a non-positive derating factor df" *)
+Definition trafo_b_cols := trafo_common ++
     [("shift_degree", Man (SConst (N 0)));
      arg "tap_changer_type" VNaN;
      ("tap_pos", Man (SArgOr "tap_pos" SAbsent));
      opt "tap2_pos";
      arg "tap_dependency_table" F;
-     ("oltc", Opt "oltc" F F false)] |}.
+     ("oltc", Opt "oltc" F F false)].
+Definition d_trafo_b : desc := {| d_table := "trafo"; d_idxtab := "trafo"; d_nodes := trafo_nodes; d_pos := ["df"]; d_req := trafo_req;
+  d_cols := trafo_b_cols |}.
+Definition d_trafo_b_old : desc := {| d_table := "trafo"; d_idxtab := "trafo"; d_nodes := trafo_nodes; d_pos := []; d_req := trafo_req;
+  d_cols := trafo_b_cols |}.
 
 (* trafo_create.py:762-820 (create_transformer3w) / :897-926 + from_parameters *)
 Definition t3_nodes := [("hv_bus", "bus"); ("mv_bus", "bus"); ("lv_bus", "bus")].
@@ -386,9 +405,13 @@ Fixpoint cost_fold_rejects (is_poly : bool) (poly pwl : list cost) (els : list Z
            if is_poly then cost_fold_rejects is_poly (poly ++ [c]) pwl r et pt
            else cost_fold_rejects is_poly poly (pwl ++ [c]) r et pt
   end.
-(* _costs_existance_check, branch "et is a str": sum(poly_exist) & sum(pwl_exist) >= 1  (bitwise and of two counts) *)
-Definition countb {A} (f : A -> bool) (l : list A) : Z := Z.of_nat (List.length (filter f l)).
+(* _costs_existance_check after "fix: create_poly_costs / create_pwl_costs reject exactly the duplicate costs the single
+   functions reject": number of new entries with an existing poly cost / pwl cost [of the power type] + repetitions >= 1 *)
 Definition costs_batch_rejects (is_poly : bool) (poly pwl : list cost) (els : list Z) (et : string) (pt : string) : bool :=
+  existsb (fun e => cost_exists poly pwl e et (if is_poly then None else Some pt)) els || negb (nodupz els).
+(* before the repair, branch "et is a str": sum(poly_exist) & sum(pwl_exist) >= 1  (bitwise and of two counts) *)
+Definition countb {A} (f : A -> bool) (l : list A) : Z := Z.of_nat (List.length (filter f l)).
+Definition costs_batch_rejects_old (is_poly : bool) (poly pwl : list cost) (els : list Z) (et : string) (pt : string) : bool :=
   let pe := countb (fun c => memz (c_elem c) els && String.eqb (c_et c) et) poly in
   let we := countb (fun c => memz (c_elem c) els && String.eqb (c_et c) et &&
                              (if is_poly then true else String.eqb (c_ptype c) pt)) pwl in
@@ -419,4 +442,4 @@ Definition run_kind (k : string) (t : tabs) (std : amap) (idxs : option (list Z)
 Definition mkcost (e : Z) (et pt : string) : cost := {| c_elem := e; c_et := et; c_ptype := pt |}.
 Definition run_cost (is_poly : bool) (poly pwl : list cost) (els : list Z) (et pt : string) : out :=
   OL [OB (cost_fold_rejects is_poly poly pwl els et pt); OB (costs_batch_rejects is_poly poly pwl els et pt);
-      OB (G24_cost poly pwl els et)].
+      OB (G24_cost poly pwl els et); OB (costs_batch_rejects_old is_poly poly pwl els et pt)].
